@@ -104,3 +104,9 @@ Print Assumptions C02_apps_exact.
 Theorem C02_wf_fields_distinct : forall l, nodupb l = true -> NoDup l.
 Proof. exact nodupb_NoDup. Qed.
 Print Assumptions C02_wf_fields_distinct.
+
+(* ---- the type names of every application are exactly the declared ones, through all blocks and members *)
+Theorem C02_types_exact : forall s m, listen s = Some m ->
+  forall k t, In t (types_of m k) <-> In t (declared_types s k).
+Proof. exact listen_types_exact. Qed.
+Print Assumptions C02_types_exact.
